@@ -176,19 +176,25 @@ def run(ctx):
     np_ = ctx.body(MOD + "newly_press")
     k = T("param", 2, np_.dbg.get(2, ""))
     n_call = 0
+    for sl in ktloops.selections(ctx, np_, MOD + "add_new_mapping", 2):
+        n_call += 1
+        sup = [(a, v) for a, v in sl.pred if isinstance(a, tuple) and a[0] == "call" and a[1] == MOD + "is_supported" and v is True]
+        ok = False
+        if sup and not sl.problems:
+            a = sup[-1][0][2]
+            ok = (mir.strip(a[0]) == T("field", sl.elem, "from") and list_of(a[1]) == "IP" and mir.strip(a[3]) == k)
+        ck.ob("C01-R5", np_.path, "registration-only-on-the-true-edge-of-is_supported(m.from,input_pressed,_,k)", ok, site=sl.site,
+              detail=None if ok else "known about the registered mapping: %s %s" % ([(show(a)[:60], v) for a, v in sl.pred][:3], sl.problems[:1]))
+    # every call of add_new_mapping in newly_press is such a selection, with the pressed key as its key argument
+    direct_calls = len([1 for i, n, t in np_.calls() if n == MOD + "add_new_mapping"])
+    keyarg = True
     for tag, paths in K.segments(np_):
         for p in paths:
-            for i, e in mir.context_events(np_, p):
-                if e.kind == "call" and e.a == MOD + "add_new_mapping":
-                    n_call += 1
-                    mp = mir.strip(e.b[2])
-                    sup = [ev for ev in p.events[:i] if ev.kind == "guard" and ev.b is True and isinstance(ev.a, tuple) and ev.a[0] == "call"
-                           and ev.a[1] == MOD + "is_supported"]
-                    ok = False
-                    if sup:
-                        a = sup[-1].a[2]
-                        ok = (mir.strip(a[0]) == T("field", mp, "from") and list_of(a[1]) == "IP" and mir.strip(a[3]) == k and mir.strip(e.b[1]) == k)
-                    ck.ob("C01-R5", np_.path, "registration-only-on-the-true-edge-of-is_supported(m.from,input_pressed,_,k)", ok, site=e.span)
+            for e in p.events:
+                if e.kind == "call" and e.a == MOD + "add_new_mapping" and mir.strip(e.b[1]) != k:
+                    keyarg = False
+    ck.ob("C01-R5", np_.path, "every-registration-call-is-a-selection-from-a-scan,keyed-by-the-pressed-key", direct_calls == 1 and n_call >= 1 and keyarg,
+          detail="%d call sites, %d selections" % (direct_calls, n_call))
     ck.floor("C01-R5", "add_new_mapping-call-sites-on-paths", n_call, 1)
     rets = [fx for fx in K.path_fx(np_) if fx.tag == "fn" and fx.path.outcome[0] == "return"]
     # the pressed key joins input_pressed on every return path -- except on paths that did nothing a later release
